@@ -492,6 +492,14 @@ func (l *log) delete(offsets map[int64]struct{}) ([]Message, int64, error) {
 	l.readersMu.Lock()
 	defer l.readersMu.Unlock()
 
+	// the segment might have been the writing one when we looked it up and has rolled over since,
+	// make sure to work with its current reader and not with the one of the closed writer
+	for _, r := range l.readers {
+		if r.segment == rdr.segment {
+			rdr = r
+		}
+	}
+
 	newReader, err := rdr.Delete(rs)
 	if err != nil {
 		return nil, 0, err
